@@ -83,7 +83,7 @@ def build(scn, mon_cls, hist, check_obs=None):
 
 def state_key(scn, w, m):
     extra = scn.budget_key(w) if hasattr(scn, 'budget_key') else tuple(sorted(w.counts.items()))
-    return digest((canon_world(w), reqkey(w), m.key(), extra))
+    return digest((canon_world(w), reqkey(w), m.key(w), extra))
 
 
 _CTX = {}
